@@ -563,6 +563,19 @@ def check_C11(ck):
     cases.append(("cancel", "pairprod %s %s %s %s" % (g1.A(g1.C.mul(P, a)), g2.A(Qp), g1.A(g1.C.neg(g1.C.mul(P, a))), g2.A(Qp)))); exp.append(O.show_f12(O.F12_ONE))
     b = rng.randrange(1, R)
     cases.append(("cancel", "pairmulti %s;%s %s;%s" % (g1.A(g1.C.mul(g1.gen, a)), g1.A(g1.C.mul(g1.gen, b)), g2.A(g2.C.mul(g2.gen, b)), g2.A(g2.C.mul(g2.gen, R - a))))); exp.append(O.show_f12(O.F12_ONE))
+    # the two-pair entry point on every combination of {identity, point} x {same, different} members: an identity in either
+    # slot of either group, with the SAME or a different partner point in the other pair
+    if 0 in val and 1 in val:
+        (Pa, Qa), (Pb, Qb) = pool[0], pool[1]
+        eab = O.parse_f12(ck.run([("single", "pairing %s %s" % (g1.A(Pb), g2.A(Qa)))])[0][0])
+        for (cl, p1, q1, p2, q2, want) in (
+                ("id-p1/same-q", None, Qa, Pa, Qa, val[0]), ("id-p2/same-q", Pa, Qa, None, Qa, val[0]),
+                ("id-p1/other-q", None, Qb, Pa, Qa, val[0]), ("id-p2/other-q", Pa, Qa, None, Qb, val[0]),
+                ("id-q1/same-p", Pa, None, Pa, Qa, val[0]), ("id-q2/same-p", Pa, Qa, Pa, None, val[0]),
+                ("id-q1/other-p", Pb, None, Pa, Qa, val[0]), ("id-q2/other-p", Pa, Qa, Pb, None, val[0]),
+                ("same-q", Pa, Qa, Pb, Qa, O.f12_mul(val[0], eab)), ("same-p-same-q", Pa, Qa, Pa, Qa, O.f12_mul(val[0], val[0])),
+                ("both-id-p", None, Qa, None, Qb, O.F12_ONE), ("id-p1-id-q2", None, Qa, Pa, None, O.F12_ONE)):
+            cases.append(("pairprod/" + cl, "pairprod %s %s %s %s" % (g1.A(p1), g2.A(q1), g1.A(p2), g2.A(q2)))); exp.append(O.show_f12(want))
     # slice helper with lists of different lengths: more G2 than G1 points -> product over the G1 list; fewer -> panic
     if 0 in val and 1 in val:
         cases.append(("multi/more-q-than-p", "pairmulti %s %s;%s" % (g1.A(pool[0][0]), g2.A(pool[0][1]), g2.A(pool[1][1])))); exp.append(O.show_f12(val[0]))
@@ -1004,6 +1017,17 @@ def check_C07(ck):
         # safe API outputs are members: monitor on results of operations
         outs = []
         outs.append(("generator", "%s generator" % tag))
+        # every binary group operation (projective and mixed) on every combination of identity / member operands, the
+        # identity in several representations: O - O, O + O, P - O, O - P ... must come out as members (or the identity)
+        Pm = g.sub_pt(rng)
+        for op in ("add", "sub"):
+            for a_ in (g.J(None), junk_identity(g, rng), g.J(Pm, g.lam(rng))):
+                for b_ in (g.J(None), junk_identity(g, rng), g.J(Pm), g.J(C.neg(Pm), g.lam(rng))):
+                    outs.append(("identity-operands/" + op, "%s %s %s %s" % (tag, op, a_, b_)))
+        for op in ("addm", "subm"):
+            for a_ in (g.J(None), junk_identity(g, rng), g.J(Pm, g.lam(rng))):
+                for b_ in (g.A(None), g.A(Pm), g.A(C.neg(Pm))):
+                    outs.append(("identity-operands/" + op, "%s %s %s %s" % (tag, op, a_, b_)))
         for _ in range(3):
             outs.append(("scale_by_cofactor", "%s scalecof %s" % (tag, g.A(g.full(rng)))))
             outs.append(("clear_h", "%s clearh %s" % (tag, g.J(g.full(rng), g.lam(rng)))))
